@@ -6,6 +6,7 @@
 All arithmetic is written with explicit masks so that the same text is valid for unbounded Python
 ints and for the 64-bit bit-vector mode of pyvc."""
 import hashlib
+from ._rec import recursive
 
 M64 = 0xFFFFFFFFFFFFFFFF
 M32 = 0xFFFFFFFF
@@ -119,6 +120,38 @@ def murmur3_32(data, seed):
     tail = data[4 * nblocks:]
     if n % 4 != 0:
         h1 = h1 ^ murmur_k(int.from_bytes(tail, "little"))
+    h1 = h1 ^ (n & M32)
+    return fmix32(h1)
+
+
+@recursive(returns="int:32", fuel=1)
+def murmur3_blocks(data, h0, k):
+    """MurmurHash3_x86_32 body: the 32-bit state after the first k little-endian 4-byte blocks of data, from state h0"""
+    if k == 0:
+        return h0
+    h1 = murmur3_blocks(data, h0, k - 1)
+    j = 4 * (k - 1)
+    k1 = data[j] | (data[j + 1] << 8) | (data[j + 2] << 16) | (data[j + 3] << 24)
+    h1 = h1 ^ murmur_k(k1)
+    h1 = rotl32(h1, 13)
+    return (h1 * 5 + 0xE6546B64) & M32
+
+
+def murmur3_32_r(data, seed):
+    """murmur3_32 with the block loop written as the recursion murmur3_blocks (for inputs of any length); equality with
+    murmur3_32 is checked by the C18 table job on every run"""
+    n = len(data)
+    nb = n // 4
+    h1 = murmur3_blocks(data, seed & M32, nb)
+    r = n % 4
+    if r != 0:
+        j = 4 * nb
+        k1 = data[j]
+        if r >= 2:
+            k1 = k1 | (data[j + 1] << 8)
+        if r == 3:
+            k1 = k1 | (data[j + 2] << 16)
+        h1 = h1 ^ murmur_k(k1)
     h1 = h1 ^ (n & M32)
     return fmix32(h1)
 
